@@ -271,6 +271,48 @@ func drivers(tier string, race bool) []driver {
 		v, _ := b.GetValue(3)
 		return expect("ClearValues", fmt.Sprint(ok, v, b.GetCardinality()), "false 9 2")
 	})
+	// ParOr: one goroutine per plane of the result; the inputs may reach all, some or none of the target's planes
+	add("BitSliceIndexing.BSI ParOr (inputs as wide as the target)", b2, func() (string, string) {
+		b := mk32()
+		o := bsi32.NewDefaultBSI()
+		o.SetValue(10, 12)
+		b.ParOr(2, o)
+		v1, _ := b.GetValue(3)
+		v2, _ := b.GetValue(10)
+		return expect("ParOr", fmt.Sprint(v1, v2, b.GetCardinality()), "9 12 4")
+	})
+	add("BitSliceIndexing.BSI ParOr (narrow inputs into a wider target)", b2, func() (string, string) {
+		b := mk32()
+		b.SetValue(4, 1000) // 10 planes
+		o1, o2 := bsi32.NewDefaultBSI(), bsi32.NewDefaultBSI()
+		o1.SetValue(10, 1)
+		o2.SetValue(11, 2)
+		b.ParOr(2, o1, o2)
+		v1, _ := b.GetValue(4)
+		v2, _ := b.GetValue(10)
+		v3, _ := b.GetValue(11)
+		return expect("ParOr", fmt.Sprint(v1, v2, v3, b.GetCardinality()), "1000 1 2 6")
+	})
+	add("BitSliceIndexing.BSI ParOr (no inputs)", b2, func() (string, string) {
+		b := mk32()
+		b.ParOr(2)
+		v, _ := b.GetValue(3)
+		return expect("ParOr()", fmt.Sprint(v, b.GetCardinality()), "9 3")
+	})
+	add("roaring64.BSI ParOr (narrow inputs into a wider target, no inputs)", b2, func() (string, string) {
+		b := mk64()
+		b.SetValue(7, 1<<30)
+		o1, o2 := roaring64.NewDefaultBSI(), roaring64.NewDefaultBSI()
+		o1.SetValue(10, 1)
+		o2.SetValue(11, -2)
+		b.ParOr(2, o1, o2)
+		b.ParOr(2)
+		v1, _ := b.GetValue(7)
+		v2, _ := b.GetValue(10)
+		v3, _ := b.GetValue(11)
+		v4, _ := b.GetValue(2)
+		return expect("ParOr", fmt.Sprint(v1, v2, v3, v4, b.GetCardinality()), fmt.Sprint(1<<30, 1, -2, -3, 7))
+	})
 	add("BitSliceIndexing.BSI ClearValues(own existence bitmap)", b2, func() (string, string) {
 		b := mk32()
 		b.ClearValues(b.GetExistenceBitmap()) // the found set is the bitmap the call itself clears
